@@ -3147,6 +3147,11 @@ static void AssembleFile_InitPass(void) {
     EnumIncrement    = 1;
     EnumCurrentValue = 0;
 
+    /* RADIX/OUTRADIX settings must not survive into the next pass */
+
+    RadixBase    = 10;
+    OutRadixBase = 16;
+
     strmaxcpy(CurrFileName, "INTERNAL", STRINGSIZE);
     AddFile(CurrFileName);
     CurrLine = 0;
